@@ -14,6 +14,7 @@ from ..describe import EPOCH, MS
 D4 = "D4-record-timestamps-floored-to-seconds-on-read"
 D16 = "D16-truncated-batch-with-colliding-crc-accepted"
 D17 = "D17-record-timestamps-outside-the-datetime-model"
+D18 = "D18-null-record-header-key-written-as-length-minus-one"
 BATCH_FIELDS = ("base_offset", "partition_leader_epoch", "attributes", "last_offset_delta", "base_timestamp", "max_timestamp",
                 "producer_id", "producer_epoch", "base_sequence")
 
@@ -31,7 +32,7 @@ def _blob(rng, thorough: bool) -> tuple[bytes | None, str]:  # noqa: ANN001
     return rng.randbytes(n), k
 
 
-def gen_batch(rng, thorough: bool, max_records: int) -> tuple[dict, dict]:  # noqa: ANN001
+def gen_batch(rng, thorough: bool, max_records: int, null_header_keys: bool = False) -> tuple[dict, dict]:  # noqa: ANN001
     """Returns (neutral well-formed batch with absolute offsets/timestamps in '_abs', cell description)."""
     n = rng.choice((1, 1, 2, 3, 5, 8, 20, rng.randint(1, max_records)))
     order = rng.choice(("ascending", "gaps", "descending", "arbitrary", "equal", "boundary"))
@@ -88,6 +89,7 @@ def gen_batch(rng, thorough: bool, max_records: int) -> tuple[dict, dict]:  # no
         ts = [rng.randint(0, gen.DT_MAX) for _ in range(n)]
     records = []
     kv_kinds = set()
+    null_header_keys = null_header_keys and rng.random() < 0.08
     for k in range(n):
         key, kk = _blob(rng, thorough)
         value, vk = _blob(rng, thorough)
@@ -96,7 +98,9 @@ def gen_batch(rng, thorough: bool, max_records: int) -> tuple[dict, dict]:  # no
         nh = rng.choice((0, 0, 0, 1, 2, 20 if rng.random() < 0.1 else 3))
         if rng.random() < 0.02:
             nh = rng.choice((63, 64, 127, 128))  # the zig-zag varint of the header count grows to two bytes at 64
-        headers = [(rng.choice((None, b"", b"hkey", rng.randbytes(rng.randint(1, 70)))), rng.choice((None, b"", b"hval", rng.randbytes(rng.randint(1, 70))))) for _ in range(nh)]
+        # a header key is a (non-null) string in the v2 format; kio's RecordHeader.key is typed bytes | None, so None is a possible *input* of
+        # the writer (C17, D18) but never part of a well-formed batch (C18)
+        headers = [(rng.choice((None if null_header_keys else "ключ".encode(), b"", b"hkey", rng.randbytes(rng.randint(1, 70)))), rng.choice((None, b"", b"hval", rng.randbytes(rng.randint(1, 70))))) for _ in range(nh)]
         records.append({"attributes": rng.randint(-128, 127), "timestamp_delta": ts[k] - ts[0], "offset_delta": offs[k] - offs[0],
                         "key": key, "value": value, "headers": headers})
     b = {
@@ -166,7 +170,8 @@ def c17_worker(res: Result, i: int, n: int) -> None:
     distinct: set[bytes] = set()
     for k in range(i, total, n):
         rng = common.rng_for("C17", k)
-        b, cell = gen_batch(rng, thorough, 60 if not thorough else 200)
+        b, cell = gen_batch(rng, thorough, 60 if not thorough else 200, null_header_keys=True)
+        null_key = any(hk is None for r in b["records"] for hk, _ in r["headers"])
         cells.add((cell["n"], cell["order"], cell["time"]))
         for kv in cell["kv"]:
             cells.add(("kv", kv))
@@ -184,10 +189,23 @@ def c17_worker(res: Result, i: int, n: int) -> None:
             (write_new_batch if k % 3 else write_batch)(buf, new)
             got = buf.getvalue()
         except Exception as exc:  # noqa: BLE001
+            if null_key and isinstance(exc, (TypeError, ValueError)):
+                res.count("null_header_key_refused")  # the format has no encoding for it: refusing is right
+                continue
             res.violation(f"write-raises:{type(exc).__name__}:{cell['order']}", f"write_new_batch raised {exc!r} on a representable batch ({cell})",
                           {"batch": _public(b), "cell": cell, "error": traceback.format_exc()})
             continue
         want = recref.encode_batch(b)
+        if null_key and got == want:
+            # D18: written with key length -1, which the format does not have (the strict reference decoder rejects it below)
+            try:
+                recref.decode_batch(got)
+                res.violation("oracle", "the strict reference decoder accepted a null header key", {"kio": got})
+            except recref.BadBatch:
+                res.count("null_header_key_written_as_minus_one")
+                res.known_or_violation(D18, "null-header-key-written", f"write_new_batch wrote a header key of length -1 for a None key; a conforming decoder rejects the batch ({cell})",
+                                       {"batch": _public(b), "cell": cell, "kio": got})
+            continue
         if got == want:
             res.count("bytes_equal")
             res.count("crcs_verified")
